@@ -85,6 +85,7 @@ Section SinkProofs.
     | NoFault => True
     | ErrAt k => s_pos s <= k
     | ShortAt k => s_fired s = false -> s_pos s <= k
+    | FullErrAt _ => True
     end.
 
   Lemma sink_bytes_accept : forall (s : sink) p f,
@@ -100,7 +101,8 @@ Section SinkProofs.
     sw_noshort : e <> EShort;
     sw_full : e = ENone -> n = nlen p \/ (n < nlen p /\ s_fired s = false /\ s_fired s' = true);
     sw_fired : s_fired s' = s_fired s \/ (n < nlen p /\ e = ENone /\ s_fired s' = true);
-    sw_sink : e = ESink -> n < nlen p /\ exists k, s_flt s = ErrAt k;
+    sw_sink : e = ESink -> (n < nlen p /\ exists k, s_flt s = ErrAt k) \/
+                           (n = nlen p /\ exists k, s_flt s = FullErrAt k /\ s_pos s < k <= s_pos s + n);
     sw_nofault : s_flt s = NoFault -> e = ENone
   }.
 
@@ -110,7 +112,7 @@ Section SinkProofs.
     intros s p s' n e [Hpos Hf] H. unfold sink_write in H.
     assert (Hall : forall f, wf_sink (sink_accept A s p f) \/ True) by (intros; right; exact I).
     clear Hall.
-    destruct (s_flt s) as [|k|k] eqn:Ef.
+    destruct (s_flt s) as [|k|k|k] eqn:Ef.
     - inversion H; subst; clear H. split.
       + split; cbn; [rewrite nlen_rev_append; lia | rewrite Ef; exact I].
       + reflexivity.
@@ -145,7 +147,7 @@ Section SinkProofs.
         * congruence.
         * congruence.
         * left. reflexivity.
-        * intros _. split; [lia|]. exists k. exact Ef.
+        * intros _. left. split; [lia|]. exists k. exact Ef.
         * congruence.
     - destruct (s_fired s || (s_pos s + nlen p <=? k)) eqn:Ele.
       + inversion H; subst; clear H. split.
@@ -174,6 +176,20 @@ Section SinkProofs.
         * right. split; [lia|]. split; reflexivity.
         * congruence.
         * congruence.
+    - inversion H; subst; clear H. split.
+      + split; cbn; [rewrite nlen_rev_append; lia | rewrite Ef; exact I].
+      + reflexivity.
+      + lia.
+      + rewrite sink_bytes_accept, firstn_nlen. reflexivity.
+      + reflexivity.
+      + destruct ((s_pos s <? k) && (k <=? s_pos s + nlen p)); congruence.
+      + intros _. left. reflexivity.
+      + left. reflexivity.
+      + intros He. right. split; [reflexivity|]. exists k. split; [exact Ef|].
+        destruct ((s_pos s <? k) && (k <=? s_pos s + nlen p)) eqn:E; [|discriminate He].
+        apply andb_true_iff in E. destruct E as [E1 E2].
+        apply N.ltb_lt in E1. apply N.leb_le in E2. lia.
+      + congruence.
   Qed.
 
   (** *** bufio.Writer *)
